@@ -1940,6 +1940,9 @@ class Group(Element):
     def _get_children(self, trailing=False):
         if Validator.is_strict(self.validation_level):
             children = self.children.get_ordered_children()
+            # the children that are not part of the structure (i.e. the Z segments) are not in the ordered ones
+            ordered_keys = self.ordered_children or []
+            children.extend([c for c in self.children.get_children() if c[0].name not in ordered_keys])
         else:
             children = self.children.get_children()
         if not trailing:
